@@ -229,6 +229,9 @@ def main():
             print(f"NOTE: known finding {k['id']} was not reproduced in this run")
     exit_code = 0
     os.makedirs(os.path.join(VERIF, 'replays'), exist_ok=True)
+    stale = os.path.join(VERIF, 'replays', f'{pid}_{tier}_{seed}.json')
+    if os.path.exists(stale):
+        os.remove(stale)
     if violations:
         f = violations[0][1]
         rp = os.path.join(VERIF, 'replays', f'{pid}_{tier}_{seed}.json')
